@@ -55,6 +55,9 @@ def run(ctx, rep):
     rep.rule('R07.4', '`anders als` nests: the alternative is a one-statement block holding the parsed if-statement')
     rep.rule('R07.5', 'optional separators are consumed after every statement / list element and never stored in the tree')
     rep.rule('R07.6', 'operator domains: infix tokens map to 13 distinct binary operators, prefix tokens to Not/Subtract')
+    rep.rule('R07.7', 'layout: every whitespace form and line comments are skipped by the lexer (whitespace table, comment arm)')
+    from rules import c08
+    c08.check_layout(ctx, rep, 'R07.7')
 
     tokens = [n for n, _ in F.enum_variants(tables.TOKEN)]
     rep.count('token_variants', len(tokens))
